@@ -251,8 +251,8 @@ def check_light(case):
     target of the next length: buys a further target length over the full sweep."""
     t = tuple(case)
     T = Perm(t)
-    for k in (3, 4, 5):
-        if k > len(t):
+    for k in (3, 4, 5, 6):
+        if k >= len(t):
             continue
         for p in ref.perms(k):
             P = Perm(p)
